@@ -261,6 +261,8 @@ pub struct Config {
     /// with_chunked_threshold called BEFORE the last building step (boxed / with_data /
     /// with_header / with_status_code) instead of after it
     pub threshold_first: bool,
+    /// bytes the reader yields when no length is declared (the selection must not depend on it)
+    pub actual_len: usize,
 }
 
 /// ways of building the same response: the selection must not depend on them
@@ -286,6 +288,7 @@ impl Config {
             "te_wellformed": self.te.as_ref().map(|t| t.members.is_some()),
             "built_by": BUILDS[self.build],
             "threshold_set_before_the_last_building_step": self.threshold_first,
+            "bytes_yielded_by_the_reader_when_undeclared": self.actual_len,
         })
     }
 }
@@ -310,7 +313,7 @@ fn body_bytes(n: usize) -> Vec<u8> {
 }
 
 pub fn judge(cfg: &Config) -> Result<(Coding, bool), (String, String)> {
-    let body = body_bytes(cfg.length.unwrap_or(11));
+    let body = body_bytes(cfg.length.unwrap_or(cfg.actual_len));
     let cl_header = cfg.length.map(|l| Header::from_bytes(&b"Content-Length"[..], l.to_string().as_bytes()).unwrap());
     let reader = || -> Box<dyn std::io::Read + Send> { Box::new(Cursor::new(body.clone())) };
     // the threshold is set either after the response is complete or before its last building step
@@ -491,6 +494,57 @@ fn run_cfg(cfg: &Config, acc: &mut Acc) {
 /// status 200 and a 5-byte body: 1001 x 1001 x 2 TE values; item i covers the pairs with
 /// chunked's weight = i / 1000 (2002 evaluations).
 const NUMERIC_ITEMS: u64 = 1001;
+/// every status code 100..=999, one item per hundred
+const STATUS_SWEEP_ITEMS: u64 = 9;
+/// body sizes of the size family (quick: the first five)
+const SIZES: [usize; 12] = [0, 1024, 32768, 65537, (1 << 20) + 1, 1, 1023, 32767, 32769, 1 << 20, 3 << 20, 8 << 20];
+
+fn size_items(tier: Tier) -> u64 {
+    if tier == Tier::Quick { 5 } else { SIZES.len() as u64 }
+}
+
+/// The selection is a function of the DECLARED length: a body of undeclared length is treated
+/// the same whatever the reader then yields, a declared one according to the declaration,
+/// for every well-formed TE value, both versions, two statuses.
+fn run_size_family(k: u64, tier: Tier, acc: &mut Acc) {
+    let n = SIZES[k as usize];
+    let (_, te, _) = space(tier);
+    for t in te.iter() {
+        if t.as_ref().map_or(false, |t| t.members.is_none()) {
+            continue;
+        }
+        // the multi-MiB bodies with a reduced TE list: every value naming both codings or none
+        if n > (1 << 20) + 1 && t.as_ref().map_or(false, |t| t.members.as_ref().map_or(true, |m| m.len() < 2)) {
+            continue;
+        }
+        for version in [(1u8, 0u8), (1, 1)] {
+            for status in [200u16, 404] {
+                for declared in [false, true] {
+                    let cfg = Config { version, status, threshold: None, length: if declared { Some(n) } else { None }, head: false, upgrade: false, te: t.clone(), build: 0, threshold_first: false, actual_len: n };
+                    run_cfg(&cfg, acc);
+                }
+            }
+        }
+    }
+}
+
+/// The selection may depend on the status only through 'has no body' (1xx, 204, 304): every
+/// code 100..=999 with lengths around the default threshold, declared and unknown, on both
+/// versions, with and without a TE header that prefers the other coding.
+fn run_status_sweep(hundred: u64, tier: Tier, acc: &mut Acc) {
+    let (_, te, _) = space(tier);
+    let prefer_chunked = te.iter().flatten().find(|t| t.members.as_ref().map_or(false, |m| m.len() == 1 && m[0].name.eq_ignore_ascii_case("chunked") && m[0].q.is_none())).cloned();
+    for status in (100 + hundred * 100)..(200 + hundred * 100) {
+        for (threshold, length) in [(None, Some(5)), (None, Some(32768)), (None, None), (Some(0), Some(5)), (Some(usize::MAX), Some(70000))] {
+            for version in [(1u8, 0u8), (1, 1)] {
+                for te in [None, prefer_chunked.clone()] {
+                    let cfg = Config { version, status: status as u16, threshold, length, head: false, upgrade: false, te, build: 0, threshold_first: false, actual_len: 11 };
+                    run_cfg(&cfg, acc);
+                }
+            }
+        }
+    }
+}
 
 fn space_size(tier: Tier) -> u64 {
     CACHE.with(|c| {
@@ -564,13 +618,21 @@ impl Check for C05 {
         "exploration"
     }
     fn n_items(&self, tier: Tier) -> u64 {
-        space(tier).0.size() + NUMERIC_ITEMS
+        space(tier).0.size() + NUMERIC_ITEMS + STATUS_SWEEP_ITEMS + size_items(tier)
     }
     fn chunk(&self, _tier: Tier) -> u64 {
         20_000
     }
     fn run_item(&self, idx: u64, tier: Tier, acc: &mut Acc) {
         let n0 = space_size(tier);
+        if idx >= n0 + NUMERIC_ITEMS + STATUS_SWEEP_ITEMS {
+            run_size_family(idx - n0 - NUMERIC_ITEMS - STATUS_SWEEP_ITEMS, tier, acc);
+            return;
+        }
+        if idx >= n0 + NUMERIC_ITEMS {
+            run_status_sweep(idx - n0 - NUMERIC_ITEMS, tier, acc);
+            return;
+        }
         if idx >= n0 {
             run_numeric(idx - n0, acc);
             return;
@@ -592,6 +654,7 @@ impl Check for C05 {
                 te: te[d[5]].clone(),
                 build: d[6],
                 threshold_first: d[7] == 1,
+                actual_len: 11,
             };
             run_cfg(&cfg, acc);
         });
@@ -599,7 +662,7 @@ impl Check for C05 {
     fn rule(&self, tier: Tier) -> String {
         let (sp, te, tl) = space(tier);
         format!(
-            "full product version{{0.9,1.0,1.1}} x status{:?} x (threshold,length){} pairs x HEAD x upgrade x 6 ways of building the response and declaring its length (constructor argument, Content-Length header through with_header or the constructor list, boxed(), with_data, with_status_code) x the chunking threshold set after the response is complete or before its last building step x {} TE values (absent, singles in 3 letter cases, all ordered pairs{} of chunked/identity/gzip with q in {{absent,1,0.9,0.5,0.001,0}}, OWS variants, {} malformed-q robustness values) = {} configurations, plus the numeric family: EVERY pair of three-decimal weights 0.000..1.000 for chunked and identity in both listing orders (2 004 002 TE values, HTTP/1.1, status 200), each printed by Response::raw_print and compared with the reference selection function; non-trivial = version 1.1 and status not 1xx/204 (selection not forced)",
+            "full product version{{0.9,1.0,1.1}} x status{:?} x (threshold,length){} pairs x HEAD x upgrade x 6 ways of building the response and declaring its length (constructor argument, Content-Length header through with_header or the constructor list, boxed(), with_data, with_status_code) x the chunking threshold set after the response is complete or before its last building step x {} TE values (absent, singles in 3 letter cases, all ordered pairs{} of chunked/identity/gzip with q in {{absent,1,0.9,0.5,0.001,0}}, OWS variants, {} malformed-q robustness values) = {} configurations, plus the numeric family: EVERY pair of three-decimal weights 0.000..1.000 for chunked and identity in both listing orders (2 004 002 TE values, HTTP/1.1, status 200), the size family: bodies of 0 / 1024 / 32768 / 65537 / 1 MiB + 1 bytes (thorough: 12 sizes up to 8 MiB), declared or not (an undeclared body is selected for as 'unknown' whatever the reader yields), x every well-formed TE value x versions x statuses 200/404; and EVERY status code 100..999 x 5 (threshold, length) pairs x versions 1.0/1.1 x TE absent / chunked, each printed by Response::raw_print and compared with the reference selection function; non-trivial = version 1.1 and status not 1xx/204 (selection not forced)",
             STATUSES, tl.len(), te.len(),
             if tier == Tier::Thorough { " and triples" } else { "" },
             te.iter().filter(|t| t.as_ref().map_or(false, |t| t.members.is_none())).count(),
@@ -641,6 +704,7 @@ impl Check for C05 {
             te,
             build: BUILDS.iter().position(|b| Some(*b) == c["built_by"].as_str()).unwrap_or(0),
             threshold_first: c["threshold_set_before_the_last_building_step"].as_bool().unwrap_or(false),
+            actual_len: c["bytes_yielded_by_the_reader_when_undeclared"].as_u64().unwrap_or(11) as usize,
         };
         acc.notes.insert(format!("replaying {}", cfg.to_json()));
         run_cfg(&cfg, acc);
